@@ -1147,6 +1147,7 @@ fn diff_instance(
         warp_id,
         before,
         after,
+        &before_edges,
         &after_edges,
         skip_attachment_ops,
     );
@@ -1272,14 +1273,22 @@ fn diff_edge_attachments(
     warp_id: WarpId,
     before: &GraphStore,
     after: &GraphStore,
+    before_edges: &std::collections::BTreeMap<ContentHash, EdgeRecord>,
     after_edges: &std::collections::BTreeMap<ContentHash, EdgeRecord>,
     skip_attachment_ops: &std::collections::BTreeSet<AttachmentKey>,
 ) {
-    for id in after_edges.keys() {
+    for (id, rec_after) in after_edges {
         let edge_id = EdgeId(*id);
         let before_val = before.edge_attachment(&edge_id);
         let after_val = after.edge_attachment(&edge_id);
-        if before_val == after_val {
+        // A same-id edge that moved to another source bucket is emitted by `diff_edges`
+        // as `DeleteEdge(old from)` + `UpsertEdge`; the delete's mini-cascade clears the
+        // edge attachment on replay, so an attachment that survives the move must be
+        // re-established even though its value did not change.
+        let reparented = before_edges
+            .get(id)
+            .is_some_and(|rec_before| rec_before.from != rec_after.from);
+        if before_val == after_val && !(reparented && after_val.is_some()) {
             continue;
         }
 
